@@ -324,6 +324,11 @@ impl<'ast, 'a> Visit<'ast> for Pass<'a> {
             if is_on(self.d, "R25") {
                 let m: Option<&syn::ExprMatch> = match s {
                     syn::Stmt::Expr(syn::Expr::Match(m), _) => Some(m),
+                    // `(match E { .. })` as produced by R9 / R16 in statement or tail position
+                    syn::Stmt::Expr(syn::Expr::Paren(p), _) => match &*p.expr {
+                        syn::Expr::Match(m) => Some(m),
+                        _ => None,
+                    },
                     syn::Stmt::Expr(syn::Expr::Return(r), _) => match r.expr.as_deref() {
                         Some(syn::Expr::Match(m)) => Some(m),
                         _ => None,
